@@ -602,8 +602,8 @@ class Stage:
                 if isinstance(value, DM) and value.shape[0]==1 and value.shape[1]>1:
                     value = value.T
             self._initial[var] = value
-            if priority:
-                self._initial.move_to_end(var, last=False)
+            # The latest call comes last (a quantity may have several names, e.g. a horizon variable and ocp.T: the last call wins)
+            self._initial.move_to_end(var, last=not priority)
         for_all_primitives(var, value, action, "First argument to set_initial must be a variable/signal or a simple concatenation of variables/signals")
         if self.master is not None and self.master.is_transcribed:
             if hasattr(self._method, 'set_initial_all'):
